@@ -8,26 +8,6 @@ import (
 	"github.com/evstack/ev-node/types"
 )
 
-// zzInvState builds an arbitrary node state satisfying Inv_node with chain
-// height H >= I: a committed block at H (arbitrary time, app hash, 0..1 txs),
-// signed by the genesis key; lastState agrees with it.  Returns the manager.
-func zzInvState(e *zzEnv, H uint64) (*Manager, *zzSlot) {
-	tsH := zzTimeNs("tsH")
-	prevHash := types.Hash(zzsym.BytesN("hashHm1", 32))
-	appH := zzsym.BytesN("appHashInHdrH", 32)
-	var txs types.Txs
-	if zzsym.Bool("Hnonempty") {
-		txs = types.Txs{types.Tx(zzsym.Bytes("txH", 1))}
-	}
-	sl := e.zzSignedBlock("H", H, tsH, prevHash, appH, txs)
-	e.store.blocks[H] = sl
-	e.store.height = H
-	st := types.State{ChainID: e.chainID, InitialHeight: e.gen.InitialHeight, LastBlockHeight: H,
-		LastBlockTime: sl.header.Time(), AppHash: zzsym.BytesN("rootH", 32), DAHeight: zzsym.U64("daH")}
-	e.store.state, e.store.hasState = st, true
-	return e.zzManager(st), sl
-}
-
 type zzPre struct {
 	H       uint64
 	st      types.State
@@ -106,14 +86,6 @@ func zzCheckStep(e *zzEnv, m *Manager, pre zzPre, err error, ans *zzSeqAnswer, e
 		}
 	}
 	return true
-}
-
-func zzHeights() (uint64, uint64) {
-	I := zzsym.U64("I")
-	zzsym.Assume(I >= 1 && I <= 1<<40)
-	H := zzsym.U64("H")
-	zzsym.Assume(H >= I && H <= 1<<41)
-	return I, H
 }
 
 // ZZ_C01_step: ONE production step from an arbitrary invariant state (chain of
